@@ -260,6 +260,17 @@ def run_stream(pid, stream, n, seed, tier, corpus_lines):
     return results(), crashed, dt
 
 
+def load_stream_baseline():
+    f = os.path.join(ROOT, "tools", "stream_baseline.json")
+    try:
+        return json.load(open(f))
+    except Exception:
+        return {}
+
+
+STREAM_BASELINE = load_stream_baseline()
+
+
 def load_known():
     f = os.path.join(ROOT, "known_findings.jsonl")
     out = []
@@ -426,6 +437,7 @@ def main():
             else:
                 res, crashed, dt = run_stream(pid, s, n, seed, tier, corpus)
             st = collections.Counter()
+            nt_stream = 0
             for a, b in res:
                 evaluations += 1
                 st["cases"] += 1
@@ -434,6 +446,7 @@ def main():
                 tags.update(f"{s['name']}:{t}" for t in tg)
                 if "trivial" not in tg:
                     nontrivial.add(h)
+                    nt_stream += 1
                 if len(samples) < 3 and "trivial" not in tg and len(json.dumps(a["case"])) < 1500:
                     samples.append({"stream": s["name"], "case": a["case"], "impl": a["impl"]})
                 for o in a.get("oracle", []):
@@ -458,6 +471,14 @@ def main():
                         st["model-agree"] += 1
             for c in crashed:
                 broken.append({"kind": "harness-crash", "name": f"stream {s['name']}", "detail": c})
+            # coverage guard: a stream whose cases have mostly become trivial (refused, skipped) no longer checks anything
+            base = STREAM_BASELINE.get(s["name"])
+            if base is not None and not replay and st["cases"] >= 200:
+                ratio = nt_stream / st["cases"]
+                st["nontrivial-ratio"] = round(ratio, 3)
+                if ratio < 0.5 * base:
+                    broken.append({"kind": "coverage", "name": f"stream {s['name']}: only {ratio:.0%} of the cases are non-trivial (the compiler accepts / the harness can judge them), {base:.0%} on the reference tree",
+                                   "detail": {"stream": s["name"], "nontrivial": nt_stream, "cases": st["cases"], "reference_ratio": base}})
             stream_stats[s["name"]] = dict(st, wall_s=round(dt, 1))
             log(f"[{pid}] stream {s['name']}: {dict(st)} in {dt:.0f}s")
     # mismatches: a correspondence break
